@@ -5,8 +5,12 @@
    (constructor check), the address templates of networks/ContractAPI.py.   NO proofs here.
 
    What is a parameter (Section variable, an oracle callback in the extracted driver):
-     b58      parse_b58_hashed of the network: text -> decoded payload without the 4 check bytes, or None
-     bech32   parse_bech32: text -> (hrp, version, program bytes, is-bech32m), or None
+     b58      the UNCACHED Base58Check decoder of the network (parseable_str.b58_double_sha256 / b58_groestl):
+              text -> Ret (payload without the 4 check bytes) / Ret None / Raise (any exception class)
+     bech32   the UNCACHED parse_bech32_or_32m: text -> Ret (hrp, version, program bytes, is-bech32m) / Ret None / Raise
+              (it raises IndexError on a validly checksummed string with an empty data part)
+     Both reach the parsers only through parseable_str.cache, modelled by ps_cache: whatever the decoder raises is
+     swallowed and the cached value stays None.
      int10 / int16   Python's int(s) / int(s, 16) (None = ValueError)
      compile  network.script.compile (None = any exception; ParseAPI.script has a blanket except)
      hmac512  HMAC-SHA512 with key "Bitcoin seed";   stretch  electrum initial_key_to_master_key
@@ -203,8 +207,18 @@ Definition mk_point (x y : Z) : outcome (Z * Z) :=
 Definition is_odd (y : Z) : bool := negb (Z.land y 1 =? 0).
 
 Section Parse.
-Variable b58 : text -> option bytes.
-Variable bech32 : text -> option (text * Z * bytes * bool).
+Variable b58 : text -> outcome (option bytes).
+Variable bech32 : text -> outcome (option (text * Z * bytes * bool)).
+
+(* parseable_str.cache(key, f): the slot is pre-set to None, `except Exception: pass` *)
+Definition ps_cache {A} (f : text -> outcome (option A)) (s : text) : option A :=
+  match f s with
+  | Ret v => v
+  | _ => None
+  end.
+(* parse_b58_double_sha256 / parse_b58_groestl and parse_bech32 *)
+Definition b58c (s : text) : option bytes := ps_cache b58 s.
+Definition bech32c (s : text) : option (text * Z * bytes * bool) := ps_cache bech32 s.
 Variable int10 int16 : text -> option Z.
 Variable compile : text -> option bytes.
 Variable hmac512 : bytes -> bytes.
@@ -287,7 +301,7 @@ Definition p2pkh_of_payload (net : netcfg) := b58_script_of_payload (n_address n
 Definition p2sh_of_payload (net : netcfg) := b58_script_of_payload (n_p2sh net) script_p2sh.
 
 Definition via_b58 (f : bytes -> result) (s : text) : result :=
-  match b58 s with
+  match b58c s with
   | None => Ret None
   | Some data => f data
   end.
@@ -311,7 +325,7 @@ Definition segwit_of_decoded (net : netcfg) (expected_version : Z) (blob_len : n
   end.
 
 Definition via_bech32 (f : text * Z * bytes * bool -> result) (s : text) : result :=
-  match bech32 s with
+  match bech32c s with
   | None => Ret None
   | Some v => f v
   end.
